@@ -11,5 +11,5 @@ K("icc.shuffle2_bounded", ["C18"], "jxl-color", _D, _DM, "icc_shuffle2_bounded",
   "bounded companion of the Verus row: output == column-wise read of the 2-row matrix (independent formulation); yields concrete inputs")
 K("icc.shuffle4_bounded", ["C18"], "jxl-color", _D, _DM, "icc_shuffle4_bounded", "bounded:length <= 13", ["shuffle4"],
   "bounded companion of the Verus row: output == column-wise read of the 4-row matrix (independent formulation); yields concrete inputs")
-K("icc.decode_total_small", ["C18", "C01"], "jxl-color", _D, _DM, "icc_decode_total_small", "bounded:stream <= 10 bytes", ["decode_icc"],
-  "no panic / overflow / OOB on any stream of at most 10 bytes; output length <= declared size", tier="thorough", timeout=1200)
+# (icc.decode_total_small -- totality of decode_icc on a fully symbolic 10-byte stream -- exceeds 14 GB in CBMC and was removed;
+#  decode_icc is covered per command shape by registry.d/66_icc_commands.py.)
